@@ -1140,6 +1140,11 @@ impl Engine for ReadEnum {
         let p = table_pairs();
         let (image, table, _) = p[(index % p.len() as u64) as usize];
         let round = (index / p.len() as u64) as u32;
+        if self.skrifa && images()[image].extended {
+            // a glyph-loading sweep of a real-world font costs tens of milliseconds: fewer faults per case, later
+            // rounds continue where earlier ones stopped
+            return EnumTrace { image, table, only: None, cuts: if round == 0 { 32 } else { 0 }, bits: 16 * 8, start: 16 * round.min(15), byte_sets: false };
+        }
         EnumTrace { image, table, only: None, cuts: 96 + 160 * round.min(3), bits: (48 + 80 * round.min(3)) * 8, start: 0, byte_sets: false }
     }
     fn execute(&self, t: &mut EnumTrace, stats: &mut Stats) -> Verdict {
